@@ -620,6 +620,17 @@ func chDec(entry, fmtName string, in []byte, alt string) chDecEv {
 				var n int64
 				n, err = m.ReadFrom(br)
 				ev.N = int(n)
+				if err == nil {
+					// the same field followed by more of the packet, through a plain io.Reader in short pieces: the
+					// count it reports is what it takes from the stream, no more
+					fed := append(append([]byte{}, in...), 0x01, 0xff, 0x00, 0x7f)
+					br2 := bytes.NewReader(fed)
+					var m2 chat.Message
+					n2, err2 := m2.ReadFrom(&plainReader{r: br2})
+					if used := len(fed) - br2.Len(); err2 != nil || used != int(n2) || n2 != n {
+						ev.N = 1<<20 + used // reported and consumed disagree (or the plain reader changed the outcome)
+					}
+				}
 			} else {
 				d := nbt.NewDecoder(br)
 				d.NetworkFormat(fmtName == "network")
